@@ -25,7 +25,7 @@ Definition rkind_of_code (n : nat) : option rkind :=
 Definition ev_obs (e : ev) : obs :=
   match e with
   | ESc i => OList [OInt 1; oi i]
-  | ESt i d w => OList [OInt 2; oi i; OInt d; OInt w]
+  | ESt i d => OList [OInt 2; oi i; OInt d]
   | ERm i => OList [OInt 3; oi i]
   | EAf i f => OList [OInt 4; oi i; oi f]
   | ERs f how v => OList [OInt 5; oi f; oi how; OInt v]
@@ -137,7 +137,7 @@ Definition ev_of (o : obs) : option ev :=
   | OList (OInt c :: args) =>
       match Z.to_nat c, args with
       | 1%nat, [a] => match nat_of a with Some i => Some (ESc i) | None => None end
-      | 2%nat, [a; OInt d; OInt w] => match nat_of a with Some i => Some (ESt i d w) | None => None end
+      | 2%nat, [a; OInt d] => match nat_of a with Some i => Some (ESt i d) | None => None end
       | 3%nat, [a] => match nat_of a with Some i => Some (ERm i) | None => None end
       | 4%nat, [a; b] => match nat_of a, nat_of b with Some i, Some f => Some (EAf i f) | _, _ => None end
       | 5%nat, [a; b; OInt v] => match nat_of a, nat_of b with Some f, Some h => Some (ERs f h v) | _, _ => None end
@@ -192,12 +192,11 @@ Definition fin_of_obs (o : obs) : option fin :=
 (* ------------------------------------------------------------------ *)
 (* the property on an observed trace (never calls the model) *)
 Definition check_prog (tr : list ev) : bool :=
-  chk_struct false tr && chk_cb true tr && chk_to true tr && chk_fut true false tr && chk_log false true tr.
+  chk_struct false tr && chk_cb true tr && chk_to true tr && chk_fut true tr && chk_log false true tr.
 
 Definition check_sync (timeout : option Z) (r : sync_result) (fs : fin) (tr : list ev) : bool :=
   let idle := match r with RIdle => true | _ => false end in
-  let cancel_ok := match timeout with Some _ => true | None => false end in
-  chk_struct true tr && chk_cb idle tr && chk_to idle tr && chk_fut idle cancel_ok tr && chk_log true idle tr
+  chk_struct true tr && chk_cb idle tr && chk_to idle tr && chk_fut idle tr && chk_log true idle tr
   && sync_ok timeout tr r fs.
 
 Definition check_case (c : c38_input) (o : obs) : bool :=
